@@ -422,9 +422,17 @@ RULE = ("random histories of 4-14 operations over 1-3 objects (json values, tabl
         "(configuration, palette object, synced palette, global) and of consuming the result (whole, by line, both "
         "orders); plus hunts that repeat 'render under A, drop A, create B, render' until a palette identity is "
         "re-used, and targeted 'render, register (new + existing ids), render' and 'synced palette, replace the global configuration, synced palette' histories.  Non-trivial = the history renders some object at least twice under different configurations or "
-        "after a registration / drop.")
+        "after a registration / drop.  Plus 90 (thorough 900) histories over objects AT the layout thresholds, a fixed share per object kind: "
+        "json values whose one-line measure is 200 +-3 at nesting depth 0-2 (lists, dicts, both formats), lists of 30-140 simple values wrapped "
+        "at 150 with items of every colour class and now and then an item longer than a line; tables / record formatters whose cells (number, "
+        "keyword, text, enum with every modifier, plain FieldType() columns) are longer than, exactly as long as and shorter than their columns, "
+        "headers / footers / titles / skipped-records and break lines around the table width; git history reports with continuation lines and "
+        "author names around 18; console help with attribute names of several lengths -- each rendered coloured and no_color under a "
+        "configuration that colours EVERY syntax id (TEXT included), under a second configuration and, in 40% of them, with an unrelated global "
+        "configuration in place; on the fresh reference renderings the result object is also measured (len, plain_text, fixed_len, format, slices).")
 TRUSTED_BASE = [
-    "the chunk program of every object (which palette accessor colours which text) is taken from the implementation by a probe rendering with an instrumented palette on a fresh copy of the object; the layout code that produces it (pretty-printer, table, record, report, help formatters) is NOT modelled in Coq",
+    "the chunk program of tables, record formatters, git history reports and console help (which palette accessor colours which text) is taken from the implementation by a probe rendering with an instrumented palette on a fresh copy of the object; their layout code is NOT modelled in Coq (tested: strip(coloured) = no_color on the implementation for objects at the layout thresholds, and the model, fed with the probe's layout, must reproduce the coloured text)",
+    "pretty-printer values: the layout IS modelled (coq/C10/Layout.v, pp_obj); str() of numbers and of non-string keys and the order of dict keys (the implementation's _mk_type_sort_value) enter as oracle values",
     "CPython: id() of a live object is never handed to a new object; an object referenced from a dict key stays alive",
     "the colour description language is modelled for named foreground colours and bold only; add_new_items' eager resolution loop is modelled as following the parent chain in the current map; the re-entrant set_global_colors_config calls are flattened (harness/props/c10.notes.md)",
     "gen/C10_Consts.v: palette class table (SYNTAX_DEFAULTS, PARENT_PALETTES, ConfColor fields through the mro), BUILT_IN_CONFIG, the enum cache key expression and the cache-reset clause of add_new_items are read from the source by harness/props/c10.py:extract (ast, fail-closed) and cross-checked against the imported classes in every implementation run",
@@ -437,7 +445,8 @@ ASSUMPTIONS = [
 ]
 MODELLED = ("ak/color.py ColorsConfig caches / Palette metaclass / CompoundPalette / _mk_palette / global + synced palettes, "
             "ak/ppobj.py CHTextResult and the PPEnumFieldType cell cache, ak/hdoc.py HCommand palette capture; "
-            "ghist and hdoc formatters, table / pretty-printer layout: correspondence and oracle only")
+            "ak/ppobj.py PrettyPrinter layout (_gen_ch_lines, _gen_ch_chunks_for_obj: one line below 200, wrapping at 150, indentation) in Layout.v; "
+            "ghist and hdoc formatters, table / record layout: correspondence (with the probe's layout) and oracle only")
 
 WORDS = ["alpha", "beta", "gamma", "delta", "x", "yy", "zzz", "Active", "Blocked", "n/a", "", "a b", "k9", "Q"]
 USER_SYNTS = ["U.A", "U.B", "U.C", "MYSYN"]
@@ -1941,8 +1950,9 @@ TECHNIQUE = ("Coq proofs over an executable Gallina world model with explicit ob
              "every model function is shown to change the world by a sequence of nine primitive moves, four cache-coherence invariants "
              "are proved once per move and hence for every history and every allocation oracle; on top of them the Render operation is "
              "given in closed form.  Per-run correspondence of whole render histories (vm_compute vs implementation, chunk programs and "
-             "identities as oracle values) + class table / enum cache key / cache reset clause regenerated from the source + independent "
-             "fresh-state oracle on the implementation")
+             "identities as oracle values; the layout of pretty-printer values is computed by a Gallina model of the layout code and compared "
+             "at the 200 / 150 thresholds) + class table / enum cache key / cache reset clause regenerated from the source + independent "
+             "fresh-state oracle on the implementation (strip(coloured) = no_color on objects AT the layout thresholds of every formatter)")
 LEVEL_TEXT = ("Model level, unbounded histories / objects / allocation oracles, guards: user syntax items in the modelled colour language, "
               "no Python-equal enum values in one field type (obj_ok), no palette requested with synced=True.  "
               "FULL: caches_coherent (inv: no stale enum cell, cached palettes carry the colours of their configuration's current map, "
@@ -1953,6 +1963,10 @@ LEVEL_TEXT = ("Model level, unbounded histories / objects / allocation oracles, 
               "fresh configuration), single_palette_closed_form + history_independent_single_palette (coloured renderings through one "
               "palette -- pretty-printer, git history report programs: a closed formula of the object and of the configuration's own state "
               "(no_color flag, syntax map, registered classes); caches, identities, other configurations and earlier renderings do not enter).  "
+              "PRETTY-PRINTER WITH ITS LAYOUT (Layout.v models _gen_ch_chunks_for_obj: one line below 200 visible characters, long lists wrapped at "
+              "150, every measure on visible text; no colour enters the layout function): pp_layout_guards (the program of ANY json-like value meets "
+              "obj_ok / simple_obj / obj_noesc), pp_strip_layout (strip of any rendering = the no_color rendering, layout included), pp_closed_form "
+              "(text = formula of value, format and configuration state), pp_layout_thresholds (the model at 192/204 and 144/156).  "
               "GUARDED: history_independent_compound_warm (tables / record formatters in colour: closed formula of object + configuration "
               "once every syntax id used by the object's palette classes is present and resolved in the configuration, i.e. from the second "
               "rendering on; warm_satisfiable shows a fresh configuration is cold and one rendering warms it).  "
@@ -1964,12 +1978,14 @@ LEVEL_TEXT = ("Model level, unbounded histories / objects / allocation oracles, 
               "configuration with the same user content) by history_independent_refuted / _statement_false = open finding late-registered-parent, "
               "enum_alias_refuted = open finding enum-cache-equal-keys (outside obj_ok), help_captured_refuted = open finding hdoc-captured-palette; "
               "id_keyed_cache_refuted shows the repaired defect on the model with the cache keyed by id(palette) (the proofs need source_facts).  "
-              "TESTED ONLY (correspondence + fresh-state oracle, not theorems): the layout code that turns an object into its chunk program "
-              "(pretty-printer, table, record formatter), the git history report and console help formatters (for them strip(colored) = "
-              "no_color, no ESC in no_color, whole = lines and order independence are checked on the implementation's output), synced palettes, "
-              "equality with a FRESH configuration for coloured renderings.")
+              "TESTED ONLY (correspondence + fresh-state oracle, not theorems): the layout code of tables and record formatters (column widths, "
+              "padding, truncation, header / footer / service lines), the git history report and console help formatters (for them strip(colored) = "
+              "no_color, no ESC in no_color, whole = lines and order independence are checked on the implementation's output, on objects generated "
+              "AT the layout thresholds under configurations that colour every syntax id, TEXT included), len / fixed_len / format / slices of result "
+              "objects, synced palettes, equality with a FRESH configuration for coloured renderings; the pretty-printer layout model is tied to the "
+              "code by correspondence only (values at 200 +-3 and wrapped lists in every run).")
 LEVEL_NOTE = ("Trusted: Coq kernel + vm_compute; fidelity of the hand-written world model (checked by correspondence on whole histories, not "
               "proved); the chunk programs of the objects are taken from the implementation by a probe rendering; the ast extractor "
               "(class table, enum cache key, cache reset clause) and the harness.  'Every printable object' is covered by theorems only "
-              "through its chunk program; the producers of the programs are tested.")
+              "through its chunk program; the producer of the programs is modelled for the pretty-printer (Layout.v) and tested for the others.")
 DESIGN_REF = "DESIGN.md section 8, C10"
